@@ -21,6 +21,12 @@ def build(ctx, F, rule):
 
 
 def run(ctx):
+    _run(ctx)
+    ctx.delegate("C10", ["C10.reject"], "C09.reject",
+                 "finalize with nothing new to commit performs no I/O: a rejected write changes no state (in particular it does "
+                 "not re-arm finalize)", floor=1)
+
+def _run(ctx):
     F = ctx.facts("default")
     ctx.rule("C09.W123", "in every abstract writer state reachable under any history of {write, write(other type), finalize}: "
                          "record bytes are written only at the end of a destination that already holds a header (W1/W3) and a "
